@@ -69,6 +69,27 @@ REQ = {
     "range": ("HTTP_RANGE", "range"),
     "content_type": ("CONTENT_TYPE", "req_content_type"), "charset": ("CONTENT_TYPE", "req_charset"),
 }
+# Response attributes stored through header_getter (one line per field, replace-all on assignment)
+HEADER_GETTER_FAMILY = {"allow", "vary", "content_language", "content_length", "age", "content_encoding", "content_location",
+                        "content_md5", "content_disposition", "accept_ranges", "location", "pragma", "server", "content_range",
+                        "date", "expires", "last_modified", "etag", "retry_after", "www_authenticate"}
+
+
+def dup_lines(key, n):
+    """a header list that already holds the field n times, in different spellings, among other lines"""
+    spell = [key, key.lower(), key.upper()]
+    out = [["X-Other", "keep"]]
+    for i in range(n):
+        out.append([spell[i % 3], "old%d" % i])
+        if i == 0:
+            out.append(["X-Mid", "keep2"])
+    return out
+
+
+def count_lines(r, key):
+    return len([1 for k, _ in r.headerlist if k.lower() == key.lower()])
+
+
 GET_ONLY = {("resp", "etag_strong"), ("req", "charset"), ("req", "if_match"), ("req", "if_none_match")}
 # response attributes for which the statement does NOT promise CR/LF refusal
 CRLF_EXEMPT = {"content_type", "charset", "cache_control", "content_type_params", "etag_strong"}
@@ -117,11 +138,11 @@ def table(side):
     return RESP if side == "resp" else REQ
 
 
-def mk(side, key, text):
+def mk(side, key, text, lines=None):
     Request, Response = webob()
     if side == "resp":
         r = Response()
-        r.headerlist = [] if text is None else [(key, text)]
+        r.headerlist = ([] if text is None else [(key, text)]) if lines is None else [tuple(p) for p in lines]
     else:
         r = Request.blank("/")
         if text is None:
@@ -525,8 +546,13 @@ def o_rt(case):
         return None
     value = dec(case["value"])
     init = case.get("init")
-    r = mk(side, key, init)
+    lines = case.get("lines") if side == "resp" else None
+    r = mk(side, key, init, lines)
+    family = side == "resp" and attr in HEADER_GETTER_FAMILY
+    others = None if lines is None else [list(kv) for kv in lines if kv[0].lower() != key.lower()]
     tag = "%s.%s" % (side, attr)
+    if lines is not None:
+        tag += " (header list starting as %r)" % (lines,)
     with NowHook() as now:
         try:
             setattr(r, attr, value)
@@ -534,6 +560,9 @@ def o_rt(case):
             return ("roundtrip:%s:set-raises-%s" % (kind, type(e).__name__),
                     "%s = %r raises %s: %s" % (tag, value, type(e).__name__, str(e)[:100]))
         hdr = raw(side, r, key)
+        if family and isinstance(hdr, list):
+            return ("single-header:%s:duplicate-lines-survive" % attr,
+                    "%s = %r leaves %d lines of %s: %r (exactly one expected)" % (tag, value, len(hdr), key, hdr))
         if not isinstance(hdr, str) or hdr == ABSENT:
             return ("roundtrip:%s:not-one-line" % kind, "%s = %r stored %r under %s" % (tag, value, hdr, key))
         if "\r" in hdr or "\n" in hdr:
@@ -570,6 +599,9 @@ def o_rt(case):
         except Exception as e:  # noqa
             return ("none-removes:%s:raises" % kind, "%s = None raises %s" % (tag, type(e).__name__))
         if not removed():
+            if family and lines is not None:
+                return ("single-header:%s:duplicate-lines-survive" % attr,
+                        "%s = None leaves %s: %r (no line expected)" % (tag, key, raw(side, r, key)))
             return ("none-removes:%s" % kind, "%s = None leaves %s: %r" % (tag, key, raw(side, r, key)))
         try:
             if getattr(r, attr):
@@ -583,7 +615,15 @@ def o_rt(case):
         except Exception as e:  # noqa
             return ("del-removes:%s:raises" % kind, "del %s raises %s" % (tag, type(e).__name__))
         if not removed():
+            if family and lines is not None:
+                return ("single-header:%s:duplicate-lines-survive" % attr,
+                        "del %s leaves %s: %r (no line expected)" % (tag, key, raw(side, r, key)))
             return ("del-removes:%s" % kind, "del %s leaves %s: %r" % (tag, key, raw(side, r, key)))
+        if family and getattr(r, attr) is not None:
+            return ("del-removes:%s:still-readable" % kind, "%s reads %r after del" % (tag, getattr(r, attr)))
+        if others is not None and [list(kv) for kv in r.headerlist] != others:
+            return ("single-header:%s:other-lines-disturbed" % attr, "%s: set / None / del changed the other lines: %r -> %r"
+                    % (tag, others, [list(kv) for kv in r.headerlist]))
     return None
 
 
@@ -1121,6 +1161,28 @@ def o_hist(case):
                     after2 = after2[:j] + after2[j + 1:]
             if after != after2:
                 return ("stateful:%s:store-differs" % side, "%s leaves %r, on a fresh object it leaves %r" % (where, after, after2))
+            if side == "resp" and o[0] in ("set", "del") and o[1] in HEADER_GETTER_FAMILY and not isinstance(res, Err):
+                key, kind = tab[o[1]]
+                n = count_lines(r, key)
+                removing = o[0] == "del" or o[2]["t"] == "none"
+                if removing and (n != 0 or getattr(r, o[1]) is not None):
+                    return ("single-header:%s:duplicate-lines-survive" % o[1],
+                            "%s (header list before: %r) leaves %d line(s) of %s and the attribute reads %r"
+                            % (where, before, n, key, catch(getattr, r, o[1])))
+                if not removing and n > 1:
+                    return ("single-header:%s:duplicate-lines-survive" % o[1],
+                            "%s (header list before: %r) leaves %d lines of %s: %r"
+                            % (where, before, n, key, [kv for kv in store_of(side, r) if kv[0].lower() == key.lower()]))
+                if not removing and n == 1 and is_valid_value(kind, o[2]):
+                    try:
+                        want_hdr, pred, want = expect(kind, dec(o[2]), DT(*FIXED_NOW))
+                        got = getattr(r, o[1])
+                        okv = pred(got)
+                    except Exception as e:  # noqa
+                        got, okv, want = Err(type(e).__name__), False, "no exception"
+                    if not okv:
+                        return ("stateful:resp:%s:set-then-get" % o[1], "%s (header list before: %r) then reads %r, expected %s"
+                                % (where, before, got, want))
             if o[0] in ("get", "set", "del"):
                 key, kind = tab[o[1]]
                 own = SHARED_HEADER.get(o[1], key.lower()) if side == "resp" else key
@@ -1381,6 +1443,21 @@ def oracle_sweep(ctx):
                     case = {"o": "rt", "side": side, "attr": attr, "value": v, "init": init}
                     report(ctx, o_rt(case), case, "roundtrip")
                     ctx.oracle_count("roundtrip", 1, 1)
+                if side == "resp" and attr in HEADER_GETTER_FAMILY:
+                    # the field is already present 0, 1, 2, 3 times in different spellings
+                    vi = vals.index(v)
+                    for n in ([0, 1, 2, 3] if vi < 6 else [vi % 4]):
+                        case = {"o": "rt", "side": side, "attr": attr, "value": v, "lines": dup_lines(key, n)}
+                        report(ctx, o_rt(case), case, "roundtrip")
+                        ctx.oracle_count("roundtrip-duplicates", 1, 1)
+    for attr in ("date", "expires", "last_modified", "retry_after"):
+        key = RESP[attr][0]
+        for v in [enc_dt(DT(2020, 1, 1, 12, 0, 0)), enc_dt(DT(1999, 12, 31, 23, 59, 59, tzinfo=datetime.timezone(TD(hours=2)))),
+                  {"t": "date", "v": [2024, 2, 29]}]:
+            for n in (0, 1, 2, 3):
+                case = {"o": "rt", "side": "resp", "attr": attr, "value": v, "lines": dup_lines(key, n)}
+                report(ctx, o_rt(case), case, "roundtrip")
+                ctx.oracle_count("roundtrip-duplicates", 1, 1)
     # ---- dates in this process (whatever its TZ is) and in one subprocess per zone
     ny = ctx.scale(40, 1)
     years = [1970, 10000, ny]
@@ -1758,6 +1835,9 @@ def derived_checks(side, ops):
                     out.append({"o": "crlf", "attr": o[1], "value": v["v"], "init": None})
             else:
                 out.append({"o": "rt", "side": side, "attr": o[1], "value": v, "init": None, "lenient": True})
+                if side == "resp" and o[1] in HEADER_GETTER_FAMILY:
+                    for n in (2, 3):
+                        out.append({"o": "rt", "side": side, "attr": o[1], "value": v, "lines": dup_lines(key, n), "lenient": True})
     return out
 
 
